@@ -11,7 +11,10 @@ use std::sync::atomic::{AtomicU64, Ordering};
 use std::sync::{Arc, Mutex};
 use std::time::Instant;
 
-pub const VERIF: &str = "/verif";
+/// Root of the verification tree (evidence, replays, known findings, the f32 binary).
+pub fn verif_root() -> String {
+    std::env::var("CORGISIM_ROOT").unwrap_or_else(|_| "/verif".to_string())
+}
 
 pub fn build_name() -> &'static str {
     if cfg!(feature = "f32") {
@@ -84,7 +87,7 @@ pub struct Findings {
 }
 
 pub fn load_findings() -> Findings {
-    match std::fs::read_to_string(format!("{}/known_findings.json", VERIF)) {
+    match std::fs::read_to_string(format!("{}/known_findings.json", verif_root())) {
         Ok(s) => serde_json::from_str(&s).unwrap_or_else(|e| {
             eprintln!("harness error: known_findings.json does not parse: {}", e);
             std::process::exit(2);
@@ -812,7 +815,7 @@ fn write_replay(prop: &str, pname: &str, idx: u64, seed: u64, base: u64, regime:
         corgi_rev: corgi_rev(),
         extra: json!({"run_seed": seed, "perturb": v.extra.get("perturb").cloned().unwrap_or(serde_json::Value::Null), "case": v.extra.get("case").cloned().unwrap_or(serde_json::Value::Null)}),
     };
-    let dir = format!("{}/replays", VERIF);
+    let dir = format!("{}/replays", verif_root());
     let _ = std::fs::create_dir_all(&dir);
     let path = format!("{}/{}-{}-{}-{}-{}{}{}.json", dir, prop, v.monitor, base, pname, idx, tag, if cfg!(feature = "f32") { "-f32" } else { "" });
     std::fs::write(&path, serde_json::to_string_pretty(&r).unwrap()).expect("cannot write replay file");
@@ -1016,7 +1019,7 @@ pub fn check(prop: &str, tier: &str) -> i32 {
         "assumptions": assumptions(prop),
     });
     let native_f32 = prop == "C19" && cfg!(feature = "f32");
-    let dir = if native_f32 { format!("{}/work", VERIF) } else { format!("{}/evidence", VERIF) };
+    let dir = if native_f32 { format!("{}/work", verif_root()) } else { format!("{}/evidence", verif_root()) };
     let _ = std::fs::create_dir_all(&dir);
     let path = if native_f32 { format!("{}/C19.native-f32.json", dir) } else { format!("{}/{}.json", dir, prop) };
     if let Err(e) = std::fs::write(&path, serde_json::to_string_pretty(&ev).unwrap()) {
@@ -1190,7 +1193,7 @@ pub fn cli(args: &[String]) -> i32 {
 pub fn check_c19_parent(tier: &str) -> i32 {
     let seed: u64 = std::env::var("VERIF_SEED").ok().and_then(|s| s.parse().ok()).unwrap_or(1);
     let start = Instant::now();
-    let exe = format!("{}/sim/target-f32/release/corgisim", VERIF);
+    let exe = format!("{}/sim/target-f32/release/corgisim", verif_root());
     if !std::path::Path::new(&exe).exists() {
         eprintln!("harness error: the f32 simulator binary {} is missing (bin/check builds it)", exe);
         return 2;
@@ -1216,7 +1219,7 @@ pub fn check_c19_parent(tier: &str) -> i32 {
         eprintln!("harness error: the f32 native batch exited with {:?}", native.status.code());
         return 2;
     }
-    let nev: serde_json::Value = std::fs::read_to_string(format!("{}/work/C19.native-f32.json", VERIF)).ok().and_then(|s| serde_json::from_str(&s).ok()).unwrap_or(json!({}));
+    let nev: serde_json::Value = std::fs::read_to_string(format!("{}/work/C19.native-f32.json", verif_root())).ok().and_then(|s| serde_json::from_str(&s).ok()).unwrap_or(json!({}));
 
     println!("corgisim check C19: (b) cross-build comparison of integer-data histories");
     let nruns: u64 = if tier == "thorough" { 1_500_000 } else { 80_000 };
@@ -1283,7 +1286,7 @@ pub fn check_c19_parent(tier: &str) -> i32 {
         },
         "assumptions": ["sampling, not proof", "restricted to the histories of the claimed properties; per-operation value kernels under f32 (C04-C07) are not decided by this family", "non-integer data is judged on the f32 build natively with the f32-scaled tolerance K*eps32*Mag (K = 1e4); cross-build equality is demanded on integer data only"],
     });
-    let path = format!("{}/evidence/C19.json", VERIF);
+    let path = format!("{}/evidence/C19.json", verif_root());
     if let Err(e) = std::fs::write(&path, serde_json::to_string_pretty(&ev).unwrap()) {
         eprintln!("harness error: cannot write evidence {}: {}", path, e);
         return 2;
